@@ -222,7 +222,7 @@ Definition category_of (f : rule) : category :=
   else if is_removeparam f then CRemoveparam
   else if is_generic_hide f then CGenericHide
   else if is_exception f then CException
-  else if is_important f then CImportant
+  else if is_important f && (negb (is_redirect f) || also_block_redirect f) then CImportant
   else if (match rtag f with Some _ => true | None => false end) && negb (is_redirect f) then CTagged
   else if (is_redirect f && also_block_redirect f) || negb (is_redirect f) then CNormal
   else CNone.
